@@ -826,7 +826,15 @@ val isnp : sexpr -> bool
 
 val has_nonzero_digit : char list -> bool
 
+val str_prefix : nat -> char list -> char list
+
 val nonzero_lit : sexpr -> bool
+
+val lit_ok : char list -> bool
+
+val isint : sexpr -> bool
+
+val small_lit : sexpr -> bool
 
 val py_ok : sexpr -> bool
 
